@@ -61,7 +61,11 @@ var ErrClosed = errors.New("use of closed network connection")
 var OnTransport = func() {}
 
 func (c *Conn) Read(p []byte) (int, error) {
-	OnTransport()
+	// A Read that only repeats the end-of-stream report is not progress: the
+	// loop-iteration budget keeps running, so a loop that spins on it is cut.
+	if !(c.ended && c.pos >= len(c.S.Input)) {
+		OnTransport()
+	}
 	if c.Closes > 0 {
 		return 0, ErrClosed
 	}
@@ -104,7 +108,9 @@ func (c *Conn) Read(p []byte) (int, error) {
 }
 
 func (c *Conn) Write(p []byte) (int, error) {
-	OnTransport()
+	if c.Closes == 0 && c.Writes < 1<<16 {
+		OnTransport()
+	}
 	if c.Closes > 0 {
 		return 0, ErrClosed
 	}
